@@ -21,4 +21,6 @@ SimNext == /\ Len(hist) < MaxLen
 SimSpec == SimInit /\ [][SimNext]_<<vars, hist>>
 \* a behaviour is handed over when it is MaxLen long or when nothing can happen any more
 Emit == (Len(hist) = MaxLen \/ (hist # <<>> /\ ~ ENABLED SimNext)) => PrintT(<<"VH", ToJson(hist)>>)
+\* (sensitivity self-test: run on a weakened Variant with VIEW vars; hands over the shortest unsafe behaviour)
+EmitUnsafe == (~Safe) => PrintT(<<"VH", ToJson(hist)>>)
 ===============================================================================
